@@ -322,7 +322,7 @@ func run(ci any) (res obs.Result) {
 	var err error
 	if c.Kind == "cluster" {
 		salt := c.Salt
-		e.cl = csc.NewCluster(c.Nodes, func(sl int) int { return (sl*7 + salt + sl/97) % 1000 })
+		e.cl = csc.NewCluster(c.Nodes, func(sl int) int { b := sl / 64; return (b*7 + salt + b/5) % 1000 })
 		for _, s := range e.cl.Nodes {
 			csc.RegisterJSON(s)
 		}
